@@ -13,6 +13,7 @@ import random
 import anncases
 import annhist
 import core
+import workflow
 
 PROP = "C09"
 PREFIXES = ("C09.", "crash")
@@ -146,8 +147,11 @@ def run(ctx: core.Ctx) -> int:
                 r2["detail"] = json.loads(r2["detail"])
             except ValueError:
                 pass
+    # Workflow.tla: annotate (also --force-dot-license, --skip-existing) interleaved with the other commands: nothing declared is lost
+    wf = workflow.stage(ctx, PREFIXES)
+    mc_viol = list(mc_viol) + wf["mc_violations"]
     return ctx.finish(
-        evaluations=len(events),
+        evaluations=len(events) + len(wf["events"]),
         distinct_nontrivial=len({e["label"] for e in events if e["k"] >= 2 and e["exit"] == 0}),
         rule="histories over 10 bundles (holders, licences, contributors, prefixes, year forms, --merge-copyrights, "
              "--skip-existing): all of length <= 2, length 3 (quick: seeded sample), TLC-simulated longer ones; on 10 "
